@@ -152,7 +152,7 @@ fn exec_mutants(t: &mut Tape, st: &mut Stats) -> Result<(), String> {
     let mut kinds = vec![];
     for _ in 0..nm {
         let len = server.len();
-        let kind = t.weighted(&[3, 3, 2, 2, 4, 2, 1, 1, 1, 2]);
+        let kind = t.weighted(&[3, 3, 2, 2, 4, 2, 1, 1, 1, 2, 2, 2]);
         kinds.push(kind);
         match kind {
             0 => {
@@ -242,6 +242,33 @@ fn exec_mutants(t: &mut Tape, st: &mut Stats) -> Result<(), String> {
                     }
                     server.splice(a..a, rep);
                 }
+            }
+            10 => {
+                // bare LF line ends (httparse tolerates them): all of them, or the first few
+                let all = t.chance(70);
+                let mut out = Vec::with_capacity(server.len());
+                let mut i = 0;
+                let mut n = 0;
+                while i < server.len() {
+                    if server[i] == b'\r' && i + 1 < server.len() && server[i + 1] == b'\n' && (all || n < 3) {
+                        n += 1;
+                        i += 1;
+                        continue;
+                    }
+                    out.push(server[i]);
+                    i += 1;
+                }
+                server = out;
+            }
+            11 => {
+                // k interim responses in front, bare or carrying fields
+                let k = t.range(1, 8);
+                let one: &[u8] = *t.pick(&[&b"HTTP/1.1 100 Continue\r\n\r\n"[..], b"HTTP/1.1 100 Continue\r\nConnection: close\r\n\r\n", b"HTTP/1.1 102 Processing\r\n\r\n", b"HTTP/1.0 100 \r\nX: y\r\n\r\n"]);
+                let mut pre = vec![];
+                for _ in 0..k {
+                    pre.extend_from_slice(one);
+                }
+                server.splice(0..0, pre);
             }
             _ => {
                 // oversize chunk size / numbers: replace a digit run by many digits
@@ -397,7 +424,7 @@ last-chunk line (on a redirect with an unresolvable Location), after 14 hex digi
 byte with 1..2-byte output buffers. random 'mutants': a valid exchange from C01's generator with 1..4 grammar-aware mutations (bit flip, \
 deletion, duplication, splice from a second exchange, token insertion at line starts - CRLF, lone CR / LF, 18 hex digits, Connection: \
 close, interim 100, bad Content-Length, unresolvable Location, NUL -, truncation, 100..140 extra fields, 64 KiB field names / values, \
-oversize numbers, one field line repeated 2..12 times), the request configuration of that exchange, a random arrival / buffer schedule. enumeration 'five': all five \
+oversize numbers, one field line repeated 2..12 times, CRLF turned into bare LF, 1..8 interim responses with or without fields in front), the request configuration of that exchange, a random arrival / buffer schedule. enumeration 'five': all five \
 close conditions at once in six refusal shapes. thorough: libFuzzer (8 workers, dictionary, seed corpus, -max_len=8192) on the same \
 driver and oracle. Oracle: every server-facing call returns (no panic; overflow checks on) with Err or consumed <= offered and \
 produced <= space; produced bytes of a read are an in-order subsequence of the bytes it consumed; afterwards can_proceed / proceed / \
